@@ -1639,6 +1639,9 @@ def run(ctx):
 		check_validator_models(ctx, entries, constants, lines)
 		check_namespace_rules(ctx, files)
 		ctx.count('seconds:validator-models', int(time.time() - mark))
+		mark = time.time()
+		check_command_line(ctx)
+		ctx.count('seconds:command-line', int(time.time() - mark))
 		check_frozen_catalogue(ctx)
 		ctx.count('regex:table-entries', len(entries))
 		ctx.count('regex:typo-entries', typo_count)
@@ -2041,6 +2044,159 @@ def check_namespace_rules(ctx, files):
 	ctx.count('namespace-rule:evaluations', len(requests))
 	ctx.count('namespace-rule:accepted', accepted)
 	ctx.case(('namespace-rule', len(requests)), {'paths': len(paths), 'candidate_namespaces': len(candidates), 'accepted': accepted})
+
+
+# endregion
+
+
+# region end to end: the command line, its suites, SUMMARY and exit status
+
+
+def _cli(root, dest):
+	linters = os.path.join(REPO, 'linters/cpp')
+	env = dict(os.environ, PYTHONPATH=os.pathsep.join([linters, os.path.join(ROOT, 'shims')]), PYTHONDONTWRITEBYTECODE='1', COLUMNS='80')
+	command = [sys.executable, os.path.join(linters, 'checkProjectStructure.py'), '--text', '--dest-dir', dest] + CI_ARGS[1:]
+	return subprocess.Popen(command, cwd=root, env=env, stdout=subprocess.PIPE, stderr=subprocess.PIPE, text=True)  # pylint: disable=consider-using-with
+
+
+def _read_cli(proc):
+	out, err = proc.communicate(timeout=600)
+	suites, summaries, current = [], [], None
+	for line in out.split('\n'):
+		match = SUITE_RE.match(line)
+		if match:
+			current = {'suite': match.group(1), 'failures': int(match.group(3)), 'lines': []}
+			suites.append(current)
+			continue
+		match = SUMMARY_RE.match(line)
+		if match:
+			summaries.append((match.group(1), int(match.group(2))))
+			current = None
+			continue
+		if current is not None and line.strip():
+			current['lines'].append(line)
+	return {'exit': proc.returncode, 'suites': suites, 'summaries': summaries, 'stderr': err[-300:]}
+
+
+def check_command_line(ctx):
+	"""One seeded edit per suite the CI run prints, on a small lint-clean scratch tree, through the REAL command line: the suite lists
+	the violation, the exit status is the number of printed violations (mod 256), the last SUMMARY agrees; undone -> exit 0."""
+	# pylint: disable=too-many-locals,too-many-statements,too-many-branches
+	import shutil  # pylint: disable=import-outside-toplevel
+	base = os.path.join(REPO, CATAPULT)
+	tools = sorted(
+		os.path.relpath(os.path.join(dirpath, name), base) for dirpath, _, names in os.walk(os.path.join(base, 'tools')) for name in names
+		if name.endswith(('.h', '.cpp')))
+
+	def text_of(relpath):
+		with open(os.path.join(base, relpath), 'rt', encoding='utf8') as infile:
+			return infile.read().split('\n')
+
+	def includes_of(lines):
+		return [index for index, line in enumerate(lines) if _is_include(line)]
+
+	header = next(relpath for relpath in tools if relpath.endswith('.h') and any('namespace catapult { namespace tools {' in line for line in text_of(relpath))
+		and len(includes_of(text_of(relpath))) >= 2 and 'Generators' not in relpath)
+	source = next(relpath for relpath in tools if relpath.endswith('.cpp') and 'main.cpp' not in relpath and len(includes_of(text_of(relpath))) >= 3
+		and includes_of(text_of(relpath))[1] == includes_of(text_of(relpath))[0] + 1 and includes_of(text_of(relpath))[2] == includes_of(text_of(relpath))[0] + 2)
+	template_file = next((relpath for relpath in tools if any('template<typename' in line for line in text_of(relpath))), None)
+
+	def edit(relpath, function):
+		lines = text_of(relpath)
+		return {relpath: '\n'.join(function(lines))}
+
+	def blank(lines):
+		index = next(index for index, line in enumerate(lines) if not line and index > LICENSE_LINES + 1)
+		return lines[:index] + [''] + lines[index:]
+
+	def swap(lines, which):
+		found = includes_of(lines)
+		first = found[which]
+		return lines[:first] + [lines[first + 1], lines[first]] + lines[first + 2:]
+
+	def after_namespace(lines, extra):
+		index = next(index for index, line in enumerate(lines) if 'namespace catapult { namespace tools {' in line)
+		return lines[:index + 1] + extra + lines[index + 1:]
+
+	def replace_first(lines, old, new):
+		index = next(index for index, line in enumerate(lines) if old in line)
+		return lines[:index] + [lines[index].replace(old, new, 1)] + lines[index + 1:]
+
+	cases = {
+		'Consecutiveempty': (edit(header, blank), header, {}),
+		'Indentedpreprocessor': (edit(header, lambda lines: replace_first(lines, '#include', '\t#include')), header, {}),
+		'Emptynearend': (edit(header, lambda lines: lines[:-2] + ['\t'] + lines[-2:]), header, {}),
+		'Firstinclude': (edit(source, lambda lines: swap(lines, 0)), source, {}),
+		'Includesorder': (edit(source, lambda lines: swap(lines, 1)), source, {}),
+		'Anonnamespace': (edit(header, lambda lines: after_namespace(lines, ['\tnamespace {', '\t\tconstexpr auto Seeded_Value = 1;', '\t}', ''])), header, {}),
+		'Preprocessorother': (edit(header, lambda lines: (lambda index: lines[:index + 1] + ['', '#define SEEDED_TEST_CLASS Seeded'] + lines[index + 1:])(includes_of(lines)[-1])), header, {}),
+		'Whitespaces': (edit(source, lambda lines: replace_first(lines, 'namespace catapult', 'namespace catapult ') if False else [
+			line + ' ' if index == includes_of(lines)[-1] + 2 and line else line for index, line in enumerate(lines)]), source, {}),
+		'Inconsistent': (edit(header, lambda lines: replace_first(lines, 'namespace catapult { namespace tools {', 'namespace catapult { namespace seededtools {')), header, {}),
+		'Exclusions': ({}, 'scripts/lint/exclusions.py', {'remove': 'tools/statusgen/main.cpp'}),
+	}
+	del template_file  # the Templates suite is not seeded here: `template<class` alone does not make the token-level parser report
+	cases['Dependencies'] = ({'src/catapult/thread/detail/FutureSharedState.h': '\n'.join(
+		(lambda lines: lines[:includes_of(lines)[-1] + 1] + ['#include "catapult/model/Block.h"'] + lines[includes_of(lines)[-1] + 1:])(
+			text_of('src/catapult/thread/detail/FutureSharedState.h')))}, 'src/catapult/thread/detail/FutureSharedState.h', {'extra': ['src/catapult/thread/detail/FutureSharedState.h']})
+	cases['Cross_Includes'] = ({'tests/catapult/thread/FutureTests.cpp': '\n'.join(
+		(lambda lines: lines[:includes_of(lines)[-1] + 1] + ['#include "tests/catapult/zzzseeded/test/SeededUtils.h"'] + lines[includes_of(lines)[-1] + 1:])(
+			text_of('tests/catapult/thread/FutureTests.cpp')))}, 'tests/catapult/thread/FutureTests.cpp', {'extra': ['tests/catapult/thread/FutureTests.cpp']})
+	combined = dict(cases['Consecutiveempty'][0])
+	combined.update(cases['Includesorder'][0])
+	runs = {'(unchanged)': ({}, None, {}), '(two edits)': (combined, None, {})}
+	runs.update(cases)
+	for name in ('Dependencies', 'Cross_Includes'):
+		runs[f'(unchanged, with {name})'] = ({}, None, {'extra': cases[name][2]['extra']})
+
+	procs = {}
+	for number, (name, (files, _, options)) in enumerate(runs.items()):
+		root = os.path.join(ctx.tmpdir(), f'cli-{number}')
+		shutil.copytree(os.path.join(base, 'tools'), os.path.join(root, 'tools'), ignore=shutil.ignore_patterns('CMakeLists.txt'))
+		for relpath in options.get('extra', []):
+			os.makedirs(os.path.dirname(os.path.join(root, relpath)), exist_ok=True)
+			shutil.copy(os.path.join(base, relpath), os.path.join(root, relpath))
+		for relpath, text in files.items():
+			with open(os.path.join(root, relpath), 'wt', encoding='utf8') as outfile:
+				outfile.write(text)
+		if options.get('remove'):
+			os.remove(os.path.join(root, options['remove']))
+		os.makedirs(os.path.join(root, 'dest'), exist_ok=True)
+		procs[name] = _cli(root, os.path.join(root, 'dest'))
+	results = {name: _read_cli(proc) for name, proc in procs.items()}
+
+	def total(result):
+		return sum(suite['failures'] for suite in result['suites'])
+
+	for name, result in results.items():
+		files, listed, options = runs[name]
+		case = {'kind': 'cli', 'edit': name, 'files': {relpath: text[-400:] for relpath, text in files.items()}, 'exit': result['exit'],
+			'suites': {suite['suite']: suite['failures'] for suite in result['suites'] if suite['failures']}, 'summaries': result['summaries']}
+		ctx.case(('cli', name), {'edit': name, 'exit': result['exit'], 'violations_printed': total(result), 'summary': result['summaries'][-1:]})
+		ctx.count('cli:runs')
+		printed = total(result)
+		if not result['suites'] or not result['summaries']:
+			ctx.fail('corr', f'command line run for {name}: no suites printed ({result["stderr"]})', case)
+			continue
+		if result['exit'] != printed % 256:
+			ctx.fail('property', f'command line, edit {name}: the suites print {printed} violation(s) ({case["suites"]}) but the exit status is {result["exit"]}', case)
+		if result['summaries'][-1][1] != printed or ('SUCCESS' == result['summaries'][-1][0]) != (0 == printed):
+			ctx.fail('property', f'command line, edit {name}: the suites print {printed} violation(s) but the last SUMMARY line says {result["summaries"][-1]}', case)
+		baseline = results['(unchanged)'] if 'extra' not in options else results[f'(unchanged, with {name})'] if name in cases else result
+		if name in cases:
+			suite = next((suite for suite in result['suites'] if suite['suite'] == name), None)
+			before = next((item['failures'] for item in baseline['suites'] if item['suite'] == name), 0)
+			if suite is None or suite['failures'] <= before:
+				ctx.fail('property', f'command line: the seeded {name} violation is not printed under its suite (failures {suite and suite["failures"]}, unchanged tree {before})', case)
+			elif 'Exclusions' != name and not any(listed in line for line in suite['lines']):
+				ctx.fail('property', f'command line: suite {name} does not list {listed}', case)
+			if 0 == result['exit']:
+				ctx.fail('property', f'command line: exit status 0 although a {name} violation was seeded', case)
+	if 0 != total(results['(unchanged)']) or 0 != results['(unchanged)']['exit']:
+		ctx.fail('property', f'command line on the unchanged tools tree (the undone edits): exit {results["(unchanged)"]["exit"]}, {total(results["(unchanged)"])} violations', {'kind': 'cli', 'edit': '(unchanged)'})
+	expected = total(results['Consecutiveempty']) + total(results['Includesorder'])
+	if total(results['(two edits)']) != expected:
+		ctx.fail('property', f'command line: two edits in one run print {total(results["(two edits)"])} violations, the two single runs {expected}', {'kind': 'cli', 'edit': '(two edits)'})
 
 
 # endregion
